@@ -305,7 +305,12 @@ func (t *Tokens) buildBody(name, kind string, tk []string) []byte {
 				continue
 			}
 			sz, _ := strconv.Atoi(p[2])
-			m.Manifests = append(m.Manifests, types.Descriptor{MediaType: mtRealOf(p[0]), Digest: digest.Digest(t.realDigest(p[1])), Size: int64(sz)})
+			cd := types.Descriptor{MediaType: mtRealOf(p[0]), Digest: digest.Digest(t.realDigest(p[1])), Size: int64(sz)}
+			if kv(tk, "cdata") == "1" && sz > 0 && sz < 4096 {
+				// an embedded `data` field of exactly the declared size that is NOT the content: a registry serves blobs, never this
+				cd.Data = []byte(strings.Repeat("Z", sz))
+			}
+			m.Manifests = append(m.Manifests, cd)
 		}
 		m.Subject = subjDesc()
 		raw, _ = json.Marshal(m)
